@@ -97,7 +97,7 @@ def main(argv=None):
         results = [_run_shard((modname, c)) for c in cfgs]
     else:
         ctx = mp.get_context("fork")
-        with ctx.Pool(nproc, maxtasksperchild=None) as pool:
+        with ctx.Pool(nproc, maxtasksperchild=1) as pool:
             results = pool.map(_run_shard, [(modname, c) for c in cfgs], chunksize=1)
     bad = [r[1] for r in results if r[0] != "ok"]
     if bad:
